@@ -310,14 +310,29 @@ theorem defaultFields_ok (subs' subs : List Schema) (pid : Nat) (b : Bool) (next
       have hb := fromDefaults_hdr f (some pid) f.key next
       obtain ⟨_, _, _, hkey⟩ := hdr_eq_parts hb
       split
-      · have hbl := blankFields_ok fs subs pid b (fromDefaults f (some pid) f.key next).next
-          (fun g hg => hsub g (by simp [hg]))
-        refine ⟨?_, ?_⟩
-        · intro c hcm
-          rcases List.mem_cons.mp hcm with h | h
-          · rw [h]; exact kidOK_fresh hb (hsub f (by simp))
-          · exact hbl.1 c h
-        · simp only [List.map_cons, List.filter_cons, hk, if_true, hbl.2, hkey]
+      · by_cases hb' : b = true
+        · simp only [hb', if_true]
+          have hbk := blank_hdr f (some pid) f.key (fromDefaults f (some pid) f.key next).next
+          have hbl := blankFields_ok fs subs pid true (blank f (some pid) f.key (fromDefaults f (some pid) f.key next).next).2
+            (fun g hg => hsub g (by simp [hg]))
+          subst hb'
+          refine ⟨?_, ?_⟩
+          · intro c hcm
+            rcases List.mem_cons.mp hcm with h | h
+            · rw [h]; exact kidOK_fresh hbk (hsub f (by simp))
+            · exact hbl.1 c h
+          · simp only [List.map_cons, List.filter_cons, hk, if_true, hbl.2, (hdr_eq_parts hbk).2.2.2]
+        · have hbf : b = false := by simpa using hb'
+          subst hbf
+          simp only [Bool.false_eq_true, if_false]
+          have hbl := blankFields_ok fs subs pid false (fromDefaults f (some pid) f.key next).next
+            (fun g hg => hsub g (by simp [hg]))
+          refine ⟨?_, ?_⟩
+          · intro c hcm
+            rcases List.mem_cons.mp hcm with h | h
+            · rw [h]; exact kidOK_fresh hb (hsub f (by simp))
+            · exact hbl.1 c h
+          · simp only [List.map_cons, List.filter_cons, hk, if_true, hbl.2, hkey]
       · refine ⟨?_, ?_⟩
         · intro c hcm
           rcases List.mem_cons.mp hcm with h | h
